@@ -321,8 +321,14 @@ struct ToolOutcome {
     parse_diag: Option<String>,
 }
 
-fn call_tool(source: &str, val: Option<&str>) -> ToolOutcome {
-    let mut opt = json!({});
+fn call_tool(source: &str, val: Option<&str>, derive_bits: u64) -> ToolOutcome {
+    // the same derive switches / representation for the validation-off and the validation-on
+    // call: only the validation setting differs between the two
+    let mv = ["rust", "glam", "nalgebra"][((derive_bits >> 4) % 3) as usize];
+    let mut opt = json!({
+        "bv": derive_bits & 1 != 0, "bh": derive_bits & 2 != 0, "en": derive_bits & 4 != 0,
+        "se": derive_bits & 8 != 0, "mv": mv,
+    });
     if let Some(v) = val {
         opt["val"] = json!(v);
     }
@@ -377,7 +383,22 @@ fn call_tool(source: &str, val: Option<&str>) -> ToolOutcome {
     }
 }
 
+fn caps_of(variant: &str) -> naga::valid::Capabilities {
+    match variant {
+        "none" => naga::valid::Capabilities::empty(),
+        "default" => naga::valid::Capabilities::default(),
+        v if v.starts_with("bits:") => {
+            naga::valid::Capabilities::from_bits_truncate(v[5..].parse().unwrap_or(0))
+        }
+        _ => naga::valid::Capabilities::all(),
+    }
+}
+
 pub fn examine(source: &str, caps_variant: &str) -> Value {
+    examine_with(source, caps_variant, 0)
+}
+
+pub fn examine_with(source: &str, caps_variant: &str, derive_bits: u64) -> Value {
     // reference: naga directly
     let parsed = guarded(|| naga::front::wgsl::parse_str(source));
     let mut rec = json!({});
@@ -397,11 +418,7 @@ pub fn examine(source: &str, caps_variant: &str) -> Value {
         }
         Ok(Ok(module)) => {
             rec["ref_parse"] = json!("ok");
-            let caps = match caps_variant {
-                "none" => naga::valid::Capabilities::empty(),
-                "default" => naga::valid::Capabilities::default(),
-                _ => naga::valid::Capabilities::all(),
-            };
+            let caps = caps_of(caps_variant);
             let r = guarded(|| {
                 naga::valid::Validator::new(naga::valid::ValidationFlags::all(), caps)
                     .validate(&module)
@@ -426,8 +443,9 @@ pub fn examine(source: &str, caps_variant: &str) -> Value {
         }
     }
     let _ = ref_valid;
-    let off = call_tool(source, None);
-    let on = call_tool(source, Some(caps_variant));
+    let off = call_tool(source, None, derive_bits);
+    let on = call_tool(source, Some(caps_variant), derive_bits);
+    rec["derive_bits"] = json!(derive_bits);
     rec["off"] = off.v.clone();
     rec["on"] = on.v.clone();
     rec["caps"] = json!(caps_variant);
@@ -517,12 +535,24 @@ pub fn mode_fuzz(args: &[String]) -> i32 {
             cur = next;
             muts.push(name);
         }
-        let caps = match rng.below(6) {
+        let caps_owned;
+        let caps = match rng.below(8) {
             0 => "none",
             1 => "default",
+            2 | 3 => {
+                // a random subset of the capability bits
+                let all = naga::valid::Capabilities::all().bits();
+                let mut bits = rng.next() as u32 & all;
+                if rng.below(2) == 0 {
+                    bits = all & !(1u32 << rng.below(32));
+                }
+                caps_owned = format!("bits:{bits}");
+                caps_owned.as_str()
+            }
             _ => "all",
         };
-        let mut rec = examine(&cur, caps);
+        let derive_bits = if rng.below(3) == 0 { rng.below(48) } else { 0 };
+        let mut rec = examine_with(&cur, caps, derive_bits);
         rec["i"] = json!(k);
         rec["parent"] = json!(corpus[pi].0);
         rec["muts"] = json!(muts);
